@@ -6,13 +6,13 @@ import kf_replay
 
 
 def native(workdir):
-    """bounded search on the REAL crates through parse() and generate_types of all six back ends: 252 members - 6 base types (u32, String,
-    Vec<u32>, a user type, a generic parameter, HashMap) x 6 shapes (T, Option<T>, Option<Option<T>>, Box<Option<T>>, Option<Box<T>>,
-    Option<Vec<Option<T>>>) x 7 attribute forms (none, bare serde(default) alone / merged before / after rename / in a second attribute,
-    default = "fn" and skip_serializing_if, which must NOT make the member optional) - each as a struct field and as a struct-variant field.
+    """bounded search on the REAL crates through parse() and generate_types of all six back ends: 378 members - 7 base types (u32, String,
+    Vec<u32>, a user type, a generic parameter, HashMap, OffsetDateTime for the back ends that accept it) x 6 shapes (T, Option<T>, Option<Option<T>>, Box<Option<T>>, Option<Box<T>>,
+    Option<Vec<Option<T>>>) x 9 attribute forms (none, bare serde(default) alone / merged before / after rename / in a second attribute,
+    default = "fn" and skip_serializing_if, which must NOT make the member optional, a per-language type override with and without default) - each as a struct field and as a struct-variant field.
     has_default must be set exactly for the bare default; the member must be written in the target's idiom with the optional marker present
     exactly when Option<T> or bare default (TS `?` and `| null`, Kotlin `= null` / `? = null`, Swift `?`, Scala `= None`, Go pointer +
-    omitempty, Python Optional + default None) around the back end's own translation of the type.  Scala's recorded finding (non-Option
+    omitempty, Python Optional + default None) around the back end's own translation of the type (or the override); Swift's initialiser parameters must repeat type text and marker.  Scala's recorded finding (non-Option
     member with default written `T = _`) is excluded here and replayed separately."""
     exe = kf_replay.replay_bin()
     if not exe:
